@@ -816,6 +816,13 @@ def run(ctx):
         suite_fixed_variant(ctx)
     suite_policy_types(ctx)
     engine_traces(ctx)
+    # with-items over SUB-WORKFLOWS on the real engine, with reruns issued inside an item's sub-workflow or on the
+    # with-items task itself (reset on / off), repeated reruns, new attempts ok / err / cancel: the task completes only
+    # after every item has completed, its state follows the items, only failed items are re-executed - the execution-tree
+    # harness of C12 restricted to cases that go through a with-items task (DB tree vs Model/Rerun.v + reference run)
+    from harness import engine_rerun
+    engine_rerun.run(ctx, ctx.n(40, 500), suite='engine_rerun_items',
+                     case_filter=lambda c: c['kind'] == 'items' or any(c['via_items']))
     ctx.assumptions += ['one event = one transaction (named_lock + refresh + keyed job: checked structurally by tr_itemslock)',
                         'Task.complete / set_state / action descriptor / DB replaced by fakes (see suite docstring)']
 
